@@ -4,6 +4,7 @@ import ast
 from .alg import AlgError, Context, Rat
 from .extract import Extractor, Closure, Opaque, PathRaises, ReturnValue, _dotted
 from .classex import ClassEx
+from .model import key_in
 
 
 class Piecewise:
@@ -50,7 +51,7 @@ class SpacingEx(PiecewiseMixin, ClassEx):
     def choose(self, test, env):
         t = self.text(test)
         for key, val in self.seeds.items():
-            if key in t:
+            if key_in(key, t):
                 return val
         v = super().choose(test, env)
         if v is None:
